@@ -23,7 +23,13 @@ for id in $IDS; do
 done
 $TOOLS/llvm-profdata merge -sparse $OUT/prof/*.profraw -o $OUT/all.profdata
 $TOOLS/llvm-cov report "${objs[@]}" -instr-profile=$OUT/all.profdata --ignore-filename-regex='(registry|rustc|harness)' 2>/dev/null > $OUT/report.txt
-$TOOLS/llvm-cov export "${objs[@]}" -instr-profile=$OUT/all.profdata --ignore-filename-regex='(registry|rustc|harness)' -format=lcov 2>/dev/null > $OUT/cov.lcov
+# one export per binary (a merged export over many objects loses instantiations of generic functions); uncovered.py
+# takes the maximum count per line over all of them
+: > $OUT/cov.lcov
+for id in $IDS; do
+  b=$(echo $id | tr A-Z a-z)
+  $TOOLS/llvm-cov export $OUT/target/verif/$b -instr-profile=$OUT/all.profdata --ignore-filename-regex='(registry|rustc|harness)' -format=lcov 2>/dev/null >> $OUT/cov.lcov
+done
 rm -rf $OUT/prof
-tail -n +1 $OUT/report.txt | awk '{print $1, $(NF-9), $(NF-8), $(NF-7), $(NF-3), $(NF-2), $(NF-1)}' | column -t | head -80
+cut -c1-200 $OUT/report.txt | tail -60
 echo "lcov: $OUT/cov.lcov  (tools/uncovered.py lists functions never entered)"
